@@ -18,7 +18,7 @@
 #include "h_gen.h"
 #include "h_tree.h"
 
-static int opt_dedup, opt_noops, opt_suffix, opt_lean, opt_faults, opt_libc;
+static int opt_dedup, opt_noops, opt_suffix, opt_lean, opt_faults, opt_libc, opt_nodesc;
 static long last_load_requests; /* allocator requests made by the most recent cbor_load */
 static int in_fault_run;
 static long opt_stack_kb;
@@ -189,7 +189,7 @@ static void lean_load(const unsigned char* in, size_t len) {
   if (lean_expect == 2 && !(item == NULL && res.error.code == CBOR_ERR_MEMERROR)) ok = 0;
   if (item) {
     if (!opt_noops) {
-      cbor_describe(item, devnull);
+      if (!opt_nodesc) cbor_describe(item, devnull); /* (its output is quadratic in the depth - 4 spaces per level per line: minutes at depth 65536) */
       size_t ss = cbor_serialized_size(item);
       unsigned char* sb = NULL;
       size_t sbs = 0;
@@ -696,6 +696,7 @@ static int real_main(int argc, char** argv) {
     else if (!strcmp(argv[a], "--skip")) opt_skip = atol(argv[++a]);
     else if (!strcmp(argv[a], "--lean")) opt_lean = 1;
     else if (!strcmp(argv[a], "--libc")) opt_libc = 1;
+    else if (!strcmp(argv[a], "--nodesc")) opt_nodesc = 1;
     else if (!strcmp(argv[a], "--faults")) opt_faults = atoi(argv[++a]);
     else if (!strcmp(argv[a], "--stack")) opt_stack_kb = atol(argv[++a]);
   }
@@ -746,6 +747,9 @@ static int real_main(int argc, char** argv) {
     unsigned long per = 1ul << (8 * (l - 1));
     for (unsigned f = lo; f <= hi; f++)
       for (unsigned long v = 0; v < per; v++) {
+        /* 4-byte strings 99 hhll xx / b9 hhll xx declare up to 65535 entries: every one of these loads obtains and releases up to
+         * 1 MiB (50 minutes per first byte under ASan). Declared counts above 1024 are thinned to every 7th one. */
+        if (l == 4 && (f == 0x99 || f == 0xb9) && (v >> 8) > 1024 && (v >> 8) % 7 != 3) continue;
         buf[0] = (unsigned char)f;
         for (int i = 1; i < l; i++) buf[i] = (unsigned char)(v >> (8 * (l - 1 - i)));
         one_load(buf, l);
